@@ -5,7 +5,7 @@
 B=$1; W=$2; J=$3; shift 3
 HERE="$(cd "$(dirname "$0")" && pwd)"
 export VERIF_EVIDENCE_DIR=/var/tmp/sweep-evidence
-run() { p=$1; s=$2; out=$("$HERE/check" $p --seed $s --budget $B --workers $W 2>&1); rc=$?; echo "$p seed=$s exit=$rc $(echo "$out" | grep -o 'runs=[0-9]*' | head -1) $(echo "$out" | grep -E '^  rule=|^VIOLATION' | head -4 | tr '\n' ' ')"; }
-export -f run; export HERE B W
+run() { p=$1; s=$2; out=$("$HERE/check" $p ${TIER:+--tier $TIER} --seed $s --budget $B --workers $W 2>&1); rc=$?; echo "$p seed=$s exit=$rc $(echo "$out" | grep -o 'runs=[0-9]*' | head -1) $(echo "$out" | grep -E '^  rule=|^VIOLATION' | head -4 | tr '\n' ' ')"; }
+export -f run; export HERE B W TIER
 for s in "$@"; do for i in $(seq -w 1 20); do echo "C$i $s"; done; done | xargs -P $J -n 2 bash -c 'run $0 $1'
 echo SWEEP-DONE
